@@ -167,7 +167,7 @@ def z_queries(rep, tier, seed):
     cons = [z3.Length(s) > 0, z3.Not(z3.InRe(s, z3.Concat(rx, R.ALL)))]
     r, m, dt = R.check(cons)
     rep.zquery('lexer_totality', 'Sigma+ subset L(XML_SPE).Sigma* (under-approximated look-aheads)', r,
-               'unsat', dt, detail={'pattern_sha': hash(pat) & 0xffffffff, 'len': len(pat)})
+               'unsat', dt, detail={'pattern_sha': hash(pat) & 0xffffffff, 'len': len(pat)}, handled=True)
     if r == 'sat':
         w = R.z3_unescape(R.model_str(m, s))
         from chameleon.tokenize import iter_xml
@@ -179,7 +179,7 @@ def z_queries(rep, tier, seed):
             rep.inconclusive.append('lexer totality query sat (%r) but does not reproduce' % w)
     # diff a second solver once
     r2 = R.smtlib_check_with_binary(cons)
-    rep.zquery('lexer_totality', 'same query, z3 4.8.12 binary', r2, 'unsat', 0.0, solver='z3-4.8.12')
+    rep.zquery('lexer_totality', 'same query, z3 4.8.12 binary', r2, 'unsat', 0.0, solver='z3-4.8.12', cross=True)
     # vacuity twin: without the property conjunct the query must be sat
     r3, _, dt3 = R.check([z3.Length(s) > 0])
     rep.zquery('lexer_totality', 'vacuity twin (property conjunct removed)', r3, 'sat', dt3)
